@@ -264,6 +264,7 @@ namespace pika::threads::detail {
         scheduling_counters& counters, scheduling_callbacks& params)
     {
         std::atomic<pika::runtime_state>& this_state = scheduler.get_state(num_thread);
+        PIKA_VERIF_POST("place.worker", &scheduler, num_thread, scheduler.get_parent_pool()->get_pool_index());
 
         std::int64_t& idle_loop_count = counters.idle_loop_count_;
         std::int64_t& busy_loop_count = counters.busy_loop_count_;
